@@ -357,7 +357,11 @@ def check(ctx, run):
                     if log["butwas"] != [(("str", printable(e_)), ("str", printable(a_)))] and badorder is None:
                         badorder = "expected %r, actual %r: 'expected <..> but was <..>' built from %s" % (e_, a_, log["butwas"])
             except Unknown as u:
-                run.broke("C14.R4: %s cannot be folded: %s" % (f.qn, u))
+                if str(u).endswith("SimpleString::at") or re.search(r"\b[AE]\[\d+\]$", str(u)):
+                    run.ob("R4", "%s: the first-difference scans stay inside the operands (folded)" % f.cls, f.site, False, witness=str(u),
+                           what="expected %r, actual %r: a scan reads behind the terminating NUL (%s)" % (e_, a_, u))
+                else:
+                    run.broke("C14.R4: %s cannot be folded: %s" % (f.qn, u))
                 continue
             run.ob("R4", "%s shows expected before actual, both rendered printable (folded)" % f.cls, f.site, badorder is None, witness=badorder or "%d operand pairs" % len(cases),
                    what="" if badorder is None else "the message would show the operands swapped or unrendered: " + badorder)
